@@ -687,7 +687,7 @@ def c04_job(job) -> List[Dict[str, Any]]:
         return [_inst("R4.6", "UNDECIDED", roles, "rate", "pairing kind of the model", f"abstract evaluation failed: {type(e).__name__}: {e}")]
     if partial is None:
         return [_inst("R4.6", "UNDECIDED", roles, "rate", "pairing kind of the model", "cannot tell full from partial pairing on a three-team game")]
-    for sizes, mode in [(sz, "ranks") for sz in _sizes(tier) + [(3, 1)]] + [(sz, "scores") for sz in _sizes(tier) if max(sz) == 1]:
+    for sizes, mode in [(sz, "ranks") for sz in _sizes("quick") + [(3, 1)]] + [(sz, "scores") for sz in _sizes("quick") if max(sz) == 1]:
         n = len(sizes)
         for lv in weak_orderings(n):
             try:
@@ -734,7 +734,7 @@ def c03_job(job) -> List[Dict[str, Any]]:
     prog = Program()
     roles = prog.roles()[idx]
     out = []
-    for sizes in _sizes(tier):
+    for sizes in _sizes("quick"):
         n = len(sizes)
 
         def terms(**kw):
@@ -1428,7 +1428,7 @@ def c05_job(job) -> List[Dict[str, Any]]:
     roles = prog.roles()[idx]
     out = []
     tau2 = p_mul(p_atom(("param", "g.tau")), p_atom(("param", "g.tau")))
-    for sizes in _sizes(tier):
+    for sizes in _sizes("quick"):
         if max(sizes) < 2:
             continue
         for lv in weak_orderings(len(sizes)):
